@@ -63,6 +63,8 @@ inductive Op
   | events                -- observe sm.events
   | swap (k : Nat)        -- the callback lists change (a listener was attached): use machine variant k
   | write (v : Val)       -- somebody assigns the model field directly (`setattr(model, state_field, v)`)
+  | fresh (start : Option Val)  -- another instance of the class over a fresh model, with this start_value
+  | setAllow (b : Bool)   -- `sm.allow_event_without_transition = b`
 deriving Repr
 
 structure Scn where
@@ -138,6 +140,8 @@ def addLine (s : Scn) (toks : List String) : Scn :=
   | "op" :: "events" :: _ => { s with ops := s.ops.push .events }
   | "op" :: "swap" :: k :: _ => { s with ops := s.ops.push (.swap (natOf k)) }
   | "op" :: "write" :: v :: _ => { s with ops := s.ops.push (.write (natOf v)) }
+  | "op" :: "fresh" :: v :: _ => { s with ops := s.ops.push (.fresh (optNat v)) }
+  | "op" :: "set_allow" :: v :: _ => { s with ops := s.ops.push (.setAllow (boolOf v)) }
   | "op" :: "construct" :: _ => { s with ops := s.ops.push .construct }
   | "op" :: "reconstruct" :: _ => { s with ops := s.ops.push .reconstruct }
   | "op" :: "activate" :: _ => { s with ops := s.ops.push .activate }
@@ -213,6 +217,14 @@ def runEngine (s0 : Scn) : List String := Id.run do
         out := out ++ [s!"T 0 {s.reprV v}", s!"R {i} ok None cur={optS s.reprV cfg.cur} tid=-"]
         i := i + 1
         continue
+      | .setAllow b =>
+        m := { m with allow := b }
+        out := out ++ [s!"R {i} ok None cur={optS s.reprV cfg.cur} tid=-"]
+        i := i + 1
+        continue
+      | .fresh sv =>
+        m := { m with startValue := sv }
+        cfg := { cfg with cur := none, queue := [], locked := false }
       | .swap k =>
         m := ({ s with states := allv[k]! } : Scn).machine
         out := out ++ [s!"R {i} ok None cur={optS s.reprV cfg.cur} tid=-"]
@@ -221,6 +233,10 @@ def runEngine (s0 : Scn) : List String := Id.run do
       | _ => pure ()
       let (cfg', r) : Cfg × Except Exc Res := match op with
         | .construct => match construct m s.opts s.fuel cfg with
+          | (c, .ok _) => (c, .ok .none)
+          | (c, .error e) => (c, .error e)
+        | .fresh _ =>
+          match construct m s.opts s.fuel cfg with
           | (c, .ok _) => (c, .ok .none)
           | (c, .error e) => (c, .error e)
         | .reconstruct =>
@@ -242,6 +258,7 @@ def runEngine (s0 : Scn) : List String := Id.run do
       match op, r with
       | .construct, .error _ => dead := true
       | .reconstruct, .error _ => dead := true
+      | .fresh _, .error _ => dead := true
       | _, _ => pure ()
     i := i + 1
   return out
